@@ -24,7 +24,7 @@ SHIM18 = dict(SHIM17, **{"kernel/device/tty/zz_verif_c18_consoles_shim.go": "tty
 HAL18 = ["hal/c18h_link_test.go"]
 
 BUGS = {"C17": ["ScrollExtraRow", "VyNoOffUpdate", "WrapAtGE", "BsCol1Up", "TabNoWrap", "ClipTermHeight"],
-        "C18": ["ActiveAtAttach", "NoFillAfterScroll", "RedrawIgnoresVy", "RedrawCursorY", "MirrorInactive"]}
+        "C18": ["ActiveAtAttach", "NoFillAfterScroll", "RedrawIgnoresVy", "RedrawCursorY", "MirrorInactive", "GridExceedsScreen"]}
 
 ASSUME = {
     "C17": [
